@@ -32,6 +32,32 @@ use zstd::stream::read::Decoder as ZstdDecoder;
 /// Provides high level API for reading from a stream.
 pub(crate) mod stream;
 
+/// How many levels below its start a relative path that never climbs above it ends.
+#[cfg(unix)]
+pub(crate) fn path_depth(path: &Path) -> usize {
+    use std::path::Component;
+    path.components().fold(0, |depth, c| match c {
+        Component::Normal(_) => depth + 1,
+        Component::ParentDir => depth.saturating_sub(1),
+        _ => depth,
+    })
+}
+
+/// Applies the Unix modes recorded for extracted entries (depth of the entry's path below the
+/// target directory, path, mode), after all entries have been written: deeper paths first, so
+/// that a restrictive mode of a directory cannot lock the extractor out of what lies below it;
+/// paths of the same depth in archive order, so that the last entry of a repeated name decides.
+#[cfg(unix)]
+pub(crate) fn apply_unix_modes(mut modes: Vec<(usize, std::path::PathBuf, u32)>) -> io::Result<()> {
+    use std::os::unix::fs::PermissionsExt;
+    // the sort is stable
+    modes.sort_by_key(|(depth, _, _)| std::cmp::Reverse(*depth));
+    for (_, path, mode) in modes {
+        std::fs::set_permissions(path, std::fs::Permissions::from_mode(mode))?;
+    }
+    Ok(())
+}
+
 // Put the struct declaration in a private module to convince rustdoc to display ZipArchive nicely
 pub(crate) mod zip_archive {
     /// Extract immutable data from `ZipArchive` to make it cheap to clone
@@ -480,11 +506,19 @@ impl<R: Read + io::Seek> ZipArchive<R> {
     pub fn extract<P: AsRef<Path>>(&mut self, directory: P) -> ZipResult<()> {
         use std::fs;
 
+        // The recorded Unix modes are applied once every entry has been written: a read-only
+        // directory must not get in the way of its own contents, nor a read-only file in the
+        // way of a later entry of the same name.
+        #[cfg(unix)]
+        let mut modes = Vec::new();
+
         for i in 0..self.len() {
             let mut file = self.by_index(i)?;
             let filepath = file
                 .enclosed_name()
                 .ok_or(ZipError::InvalidArchive("Invalid file path"))?;
+            #[cfg(unix)]
+            let depth = path_depth(filepath);
 
             let outpath = directory.as_ref().join(filepath);
 
@@ -499,15 +533,15 @@ impl<R: Read + io::Seek> ZipArchive<R> {
                 let mut outfile = fs::File::create(&outpath)?;
                 io::copy(&mut file, &mut outfile)?;
             }
-            // Get and Set permissions
+            // Get permissions
             #[cfg(unix)]
-            {
-                use std::os::unix::fs::PermissionsExt;
-                if let Some(mode) = file.unix_mode() {
-                    fs::set_permissions(&outpath, fs::Permissions::from_mode(mode))?;
-                }
+            if let Some(mode) = file.unix_mode() {
+                modes.push((depth, outpath, mode));
             }
         }
+        // Set permissions
+        #[cfg(unix)]
+        apply_unix_modes(modes)?;
         Ok(())
     }
 
